@@ -24,14 +24,16 @@ JAC = "xitorch/grad/jachess.py"
 
 
 def rules(model: Model, tier: str) -> List[RuleResult]:
-    V = RuleResult(PROP, "C17-V", "_setup_idxs validation dominates every _Jac construction", min_instances=4)
+    V = RuleResult(PROP, "C17-V", "_setup_idxs validation dominates every _Jac construction; operators are built in the requested order", min_instances=7)
     S = RuleResult(PROP, "C17-S", "operator shape (nout, nin) and reshape roles of the products", min_instances=5)
     H = RuleResult(PROP, "C17-H", "hess: gradient closure is a sibling of the function; operator flagged Hermitian", min_instances=3)
     R3 = RuleResult(PROP, "AC3", "create_graph follows the caller in all autograd.grad calls of jachess.py", min_instances=5)
     K = RuleResult(PROP, "C17-K", "cache-key coverage: every tensor named by _getparamnames is identity-checked", min_instances=3)
     G = RuleResult(PROP, "C17-G", "products connect both parameter groups; re-evaluation under useobjparams + enable_grad", min_instances=6)
-    X = RuleResult(PROP, "C17-X", "the argument index subscripts only the full argument list", min_instances=4)
+    X = RuleResult(PROP, "C17-X", "the argument index subscripts only the full argument list; nested functions differentiate w.r.t. their own arguments", min_instances=5)
     _validation(model, V)
+    _construction_order(model, V)
+    _own_argument_differentiation(model, X)
     _shape(model, S)
     _hess(model, H)
     ac.ac3_create_graph(model, R3, files={JAC})
@@ -95,6 +97,76 @@ def _validation(model: Model, V: RuleResult):
                 V.bad(f, val[0].stmt, "%s validates the indices but constructs the operators from something else" % q)
         else:
             V.bad(f, cons[0].stmt, "%s constructs a _Jac operator on a path that skips _setup_idxs" % q)
+
+
+def _construction_order(model: Model, V: RuleResult):
+    """The k-th returned operator belongs to the k-th requested index: the result list is built by iterating the validated index list
+    itself, in its order (not a sorted / de-duplicated copy), appending exactly one operator per index."""
+    for q in ("jac", "hess"):
+        f = model.func(JAC, q)
+        defs = function_defs(f.node)
+        val = [nm for nm, ds in defs.items() if any(isinstance(d, ast.Call) and ast.unparse(d.func) == "_setup_idxs" for d in ds)]
+        if not val:
+            V.bad(f, f.node, "%s: validated index list not found" % q)
+            continue
+        vname = val[0]
+        rets = [r for r in own_nodes(f.node) if isinstance(r, ast.Return) and r.value is not None]
+        resnames = {r.value.id for r in rets if isinstance(r.value, ast.Name)} | {r.value.value.id for r in rets if isinstance(r.value, ast.Subscript) and isinstance(r.value.value, ast.Name)}
+        ok = False
+        why = ""
+        for rn in resnames:
+            for d in defs.get(rn, []):
+                if isinstance(d, ast.ListComp) and len(d.generators) == 1 and not d.generators[0].ifs and isinstance(d.generators[0].iter, ast.Name) and d.generators[0].iter.id == vname \
+                        and isinstance(d.elt, ast.Call) and ast.unparse(d.elt.func) == "_Jac":
+                    ok = True
+                    why = "[_Jac(..) for idx in %s]" % vname
+            # the append-in-a-loop idiom
+            for l in own_nodes(f.node):
+                if isinstance(l, ast.For) and isinstance(l.iter, ast.Name) and l.iter.id == vname:
+                    apps = [c for c in ast.walk(l) if isinstance(c, ast.Call) and isinstance(c.func, ast.Attribute) and c.func.attr == "append" and ast.unparse(c.func.value) == rn]
+                    if len(apps) == 1 and any(isinstance(d, ast.List) and not d.elts for d in defs.get(rn, [])):
+                        ok = True
+                        why = "for idx in %s: %s.append(<operator>)" % (vname, rn)
+        if ok:
+            V.ok(f.fq, "%s: operators are built by iterating the validated index list in its own order (%s)" % (q, why))
+        else:
+            V.bad(f, rets[-1] if rets else f.node, "%s: the returned list is not built by iterating the requested indices in order (sorted / de-duplicated / "
+                  "dict-ordered construction returns the operator of another argument at position k)" % q)
+        # the int shortcut returns element 0
+        ints = [r for r in rets if isinstance(r.value, ast.Subscript)]
+        if ints and all(ast.unparse(r.value.slice) == "0" for r in ints):
+            V.ok(f.fq, "%s: an integer selection returns the single operator" % q)
+
+
+def _own_argument_differentiation(model: Model, X: RuleResult):
+    """Inside a nested function, autograd.grad differentiates w.r.t. a tensor taken from that function's OWN arguments (or locals), not
+    from a list captured from the enclosing scope: the captured list holds the tensors of construction time, while the function is later
+    re-evaluated with substituted ones."""
+    mod = model.module(JAC)
+    for f in mod.functions.values():
+        if f.parent is None:
+            continue
+        own = set(f.all_params()) | ({f.vararg()} if f.vararg() else set()) | ({f.kwarg()} if f.kwarg() else set())
+        loc = {n.id for n in own_nodes(f.node) if isinstance(n, ast.Name) and isinstance(n.ctx, ast.Store)}
+        for c in own_nodes(f.node):
+            if isinstance(c, ast.Call) and ac.is_autograd_grad(c):
+                inp = ac._kw(c, "inputs") or (c.args[1] if len(c.args) > 1 else None)
+                if inp is None:
+                    continue
+                roots = set()
+                for e in (inp.elts if isinstance(inp, (ast.Tuple, ast.List)) else [inp]):
+                    b = e
+                    while isinstance(b, (ast.Subscript, ast.Attribute)):
+                        b = b.value
+                    if isinstance(b, ast.Name):
+                        roots.add(b.id)
+                free = sorted(r for r in roots if r not in own and r not in loc)
+                what = "%s: autograd.grad(.., inputs=%s)" % (f.qualname, ast.unparse(inp))
+                if free:
+                    X.bad(f, enclosing_stmt(c), "the differentiated tensor comes from `%s`, a variable captured from the enclosing scope, not from this function's own arguments: "
+                          "when the operator is re-evaluated with substituted tensors the gradient is taken w.r.t. the original ones" % free[0], what=what)
+                else:
+                    X.ok(f.fq, what + " : own arguments")
 
 
 def _shape(model: Model, S: RuleResult):
